@@ -173,7 +173,31 @@ def work(job):
         shutil.rmtree(S, ignore_errors=True)
 
 
+def one(mid: str, props):
+    """Materialise one mutant (id `<relative file>#<site index>`) and run the given checks on it (no test run)."""
+    rel, k = mid.rsplit("#", 1)
+    tree = ast.parse(open(os.path.join(REPO, rel)).read())
+    site = enumerate_sites(tree)[int(k)]
+    t = apply_not(tree, site) if site[0] == "not" else apply(tree, site)
+    S = tempfile.mkdtemp(prefix="verif-mut-")
+    try:
+        shutil.copytree(os.path.join(REPO, "robotools"), os.path.join(S, "robotools"), ignore=shutil.ignore_patterns("__pycache__", "*.pyc"))
+        open(os.path.join(S, rel), "w").write(ast.unparse(t))
+        ev = os.path.join(S, "ev")
+        os.makedirs(ev, exist_ok=True)
+        for prop in props:
+            q = subprocess.run([os.path.join(VERIF, "check"), prop, "--root", S], env=dict(os.environ, VERIF_EVIDENCE_DIR=ev), capture_output=True, text=True)
+            lines = [l for l in q.stdout.splitlines() if "rule=" in l or "INCONCLUSIVE" in l]
+            print(f"{mid} {prop} exit={q.returncode}")
+            for l in lines[:4]:
+                print("   ", l.strip()[:260])
+    finally:
+        shutil.rmtree(S, ignore_errors=True)
+
+
 def main():
+    if sys.argv[1] == "--one":
+        return one(sys.argv[2], sys.argv[3].split(","))
     outdir = sys.argv[1]
     jobs_n = int(sys.argv[sys.argv.index("--jobs") + 1]) if "--jobs" in sys.argv else 16
     files = sys.argv[sys.argv.index("--files") + 1].split(",") if "--files" in sys.argv else sources()
